@@ -1,6 +1,8 @@
 //! C04: parsing untrusted bytes never panics, aborts or hangs (bounded stand-in for the nom layer and the entry points
 //! that are not under contract).  Hostile inputs run in worker processes (2 MiB thread stack, address-space limit,
 //! watchdog), so panics, aborts, stack overflows, allocation failures and hangs are all observed as exit statuses.
+//! Every input also has a CPU-time budget that is a modest function of its size (`budget`): "returns ... using time
+//! bounded by a modest function of the input size" is checked as such, not only as "does not hang for 10 s".
 #![allow(dead_code)]
 use crate::c02;
 use crate::common::*;
@@ -13,6 +15,132 @@ use std::process::{Command, Stdio};
 use std::time::{Duration, Instant};
 
 const EXTREMES: &[&str] = &["0", "1", "-1", "255", "256", "65535", "65536", "2147483647", "2147483648", "4294967295", "4294967296", "9223372036854775807", "9223372036854775808", "18446744073709551615", "18446744073709551616", "99999999999999999999999", "-9223372036854775808"];
+
+/// Second-order numeric extremes: the values at which a size computed FROM the number (not the number itself) crosses
+/// the top of a machine integer.  The size formulas of ISO 32000-1 (8.9.5.1 image data, 7.4.4.4 predictor rows,
+/// 7.5.8.2 xref-stream rows) have the shape ceil(v * d / 8) * h or v * d + k with a small multiplier d (bits per
+/// component 1, 2, 4, 8, 16 times 1, 3 or 4 components, or a field width of a few bytes) and a small rounding addend
+/// k <= 8, so for every limit L = 2^31-1, 2^32-1, 2^63-1, 2^64-1 the family holds floor((L - k) / d) and its successor
+/// for k = 0..=8 and d = 1 (D_ONE), d in 1, 2, 3, 4, 8 (D_FEW) or d in 1..=8, 12, 16, 24, 32, 48, 64 (D_ALL).  A PDF integer token is read as i64,
+/// so a value above 2^63-1 is spelled as the negative integer that casts to it (2^64-1 is `-1`).
+fn boundary_family(ds: &[u64]) -> Vec<String> {
+    let limits = [i32::MAX as u64, u32::MAX as u64, i64::MAX as u64, u64::MAX];
+    let mut seen = std::collections::HashSet::new();
+    let mut out = vec![];
+    for l in limits { for d in ds { for k in 0..=8u64 {
+        let t = (l - k) / d;
+        for v in [Some(t), t.checked_add(1)].into_iter().flatten() {
+            let txt = if v <= i64::MAX as u64 { v.to_string() } else { format!("-{}", (!v).wrapping_add(1)) };
+            if seen.insert(txt.clone()) { out.push(txt); }
+        }
+    } } }
+    out
+}
+const D_ONE: &[u64] = &[1];
+const D_FEW: &[u64] = &[1, 2, 3, 4, 8];
+const D_ALL: &[u64] = &[1, 2, 3, 4, 5, 6, 7, 8, 12, 16, 24, 32, 48, 64];
+fn digit_runs(seed: &[u8]) -> Vec<(usize, usize)> {
+    let mut v = vec![]; let mut i = 0;
+    while i < seed.len() { if seed[i].is_ascii_digit() { let mut j = i; while j < seed.len() && seed[j].is_ascii_digit() { j += 1; } v.push((i, j)); i = j; } else { i += 1; } }
+    v
+}
+fn splice(seed: &[u8], i: usize, j: usize, with: &[u8]) -> Vec<u8> { let mut m = seed[..i].to_vec(); m.extend_from_slice(with); m.extend_from_slice(&seed[j..]); m }
+
+/// Inline images (ISO 32000-1 8.9.7): the data between ID and EI has no length of its own, its size is
+/// ceil(W * BPC * components / 8) * H, a function of FOUR numbers of the content stream.  One seed per colour space
+/// (G, RGB, CMYK, abbreviated keys and full keys) and per BPC 1, 2, 4, 8, 16, with data of exactly that size; then the
+/// full boundary family at each of W, H, BPC (the other two in place), and the reduced family at W and H together.
+fn inline_image_jobs() -> Vec<Vec<u8>> {
+    let full = boundary_family(D_ALL);
+    let reduced = boundary_family(D_ONE);
+    let mut out = vec![];
+    for (ci, (cs, n)) in [("/G", 1usize), ("/DeviceGray", 1), ("/RGB", 3), ("/DeviceRGB", 3), ("/CMYK", 4), ("/DeviceCMYK", 4)].into_iter().enumerate() {
+        for bpc in [1usize, 2, 4, 8, 16] {
+            let abbreviated = ci % 2 == 0;
+            let keys: [&str; 4] = if abbreviated { ["/W", "/H", "/BPC", "/CS"] } else { ["/Width", "/Height", "/BitsPerComponent", "/ColorSpace"] };
+            let data = "x".repeat(((3 * bpc * n + 7) / 8) * 2);
+            let image = |w: &str, h: &str, b: &str| format!("q BI {} {} {} {} {} {} {} {} ID {} EI Q", keys[0], w, keys[1], h, keys[2], b, keys[3], cs, data).into_bytes();
+            let b = bpc.to_string();
+            out.push(image("3", "2", &b));
+            for v in &full { out.push(image(v, "2", &b)); out.push(image("3", v, &b)); out.push(image("3", "2", v)); }
+            if abbreviated { for w in &reduced { for h in &reduced { out.push(image(w, h, &b)); } } }
+        }
+    }
+    out
+}
+
+/// ToUnicode CMaps written from the grammar (ISO 32000-1 9.10.3, Adobe TN 5014): source codes are 1 to 4 bytes long, so a
+/// bfrange `<lo> <hi> dst` can span up to 2^32 codes in a line of a few bytes.  For every code length 1..=4: lo and hi each
+/// over 0, 1, the middle, max-1, max of that length (all 25 pairs: empty, one-code, reversed and full ranges), every
+/// destination form (one unit, several units, array of 1, 2, 3 elements, empty array), the line once or three times,
+/// alone or after ordinary bfchar / bfrange definitions of the same code length.
+fn cmap_range_jobs() -> Vec<Vec<u8>> {
+    let mut out = vec![];
+    for n in 1..=4usize {
+        let max: u64 = (1u64 << (8 * n)) - 1; let mid: u64 = 1u64 << (8 * n - 1);
+        let code = |v: u64| format!("<{:0w$X}>", v, w = 2 * n);
+        let ext = [0, 1, mid, max - 1, max];
+        for lo in ext { for hi in ext { for dst in ["<0041>", "<00660069>", "[<0041>]", "[<0041> <0042>]", "[<0041> <00420043> <0044>]", "[]"] { for reps in [1usize, 3] { for ctx in [false, true] {
+            let mut body = String::new();
+            if ctx { body.push_str(&format!("2 beginbfchar\n{} <0020>\n{} <00660069>\nendbfchar\n1 beginbfrange\n{} {} <0030>\nendbfrange\n", code(0x20), code(0x21), code(0x30), code(0x39))); }
+            body.push_str(&format!("{} beginbfrange\n", reps));
+            for _ in 0..reps { body.push_str(&format!("{} {} {}\n", code(lo), code(hi), dst)); }
+            body.push_str("endbfrange\n");
+            out.push(format!("/CIDInit /ProcSet findresource begin\n12 dict begin\nbegincmap\n/CIDSystemInfo << /Registry (Adobe) /Ordering (UCS) /Supplement 0 >> def\n/CMapName /Adobe-Identity-UCS def\n/CMapType 2 def\n1 begincodespacerange\n{} {}\nendcodespacerange\n{}endcmap\nCMapName currentdict /CMap defineresource pop\nend\nend\n", code(0), code(max), body).into_bytes());
+        } } } } }
+    }
+    out
+}
+
+/// Predictor rows (ISO 32000-1 7.4.4.4): a row is ceil(Columns * Colors * BitsPerComponent / 8) bytes, the same shape of
+/// formula as an inline image; job = "predictor columns colors bpc\n" followed by the Flate data
+fn predictor_jobs() -> Vec<Vec<u8>> {
+    use std::io::Write as _;
+    let mut e = flate2::write::ZlibEncoder::new(Vec::new(), flate2::Compression::default()); e.write_all(b"\x02ab\x04cd\x03ef\x01").unwrap(); let z = e.finish().unwrap();
+    let full = boundary_family(D_ALL);
+    let reduced = boundary_family(D_ONE);
+    let mut out = vec![];
+    let mut job = |p: i64, columns: &str, colors: &str, bpc: &str| { let mut m = format!("{} {} {} {}\n", p, columns, colors, bpc).into_bytes(); m.extend_from_slice(&z); out.push(m); };
+    for p in [2i64, 12] {
+        for colors in ["1", "3", "4"] { for bpc in ["1", "2", "4", "8", "16"] { for v in &full { job(p, v, colors, bpc); } } }
+        for v in &reduced { job(p, "2", v, "8"); job(p, "2", "1", v); for w in &reduced { job(p, v, w, "8"); } }
+    }
+    out
+}
+
+/// CPU-time budget of one input: "time bounded by a modest function of the input size" = 1 s + 10 microseconds per byte
+/// (a floor of 100 KB/s on top of a constant that is some thousand times what the slowest small input needs)
+fn budget(len: usize) -> Duration { Duration::from_secs(1) + Duration::from_micros(10) * len as u32 }
+
+/// CPU time consumed so far by all threads of this process (the library may use rayon); wall clock where that is not available
+fn cpu_now() -> Duration {
+    #[cfg(all(target_os = "linux", target_pointer_width = "64"))]
+    {
+        extern "C" { fn clock_gettime(clk: i32, ts: *mut [i64; 2]) -> i32; }
+        let mut ts = [0i64; 2];
+        // 2 = CLOCK_PROCESS_CPUTIME_ID; struct timespec is two 64-bit fields on 64-bit Linux
+        if unsafe { clock_gettime(2, &mut ts) } == 0 { return Duration::new(ts[0] as u64, ts[1] as u32); }
+    }
+    static START: std::sync::OnceLock<Instant> = std::sync::OnceLock::new();
+    START.get_or_init(Instant::now).elapsed()
+}
+
+/// runs one input; Err = panic, Ok(Some(..)) = over its time budget (measured again, unless it was over four times the
+/// budget, and the smaller figure kept, so that a disturbed measurement is not reported), Ok(None) = fine
+fn run_timed(kind: &str, bytes: &[u8], heartbeat: &dyn Fn()) -> Result<Option<String>, String> {
+    let limit = budget(bytes.len());
+    let mut best: Option<Duration> = None;
+    for _ in 0..2 {
+        let c0 = cpu_now();
+        guarded(|| consume(kind, bytes))?;
+        let used = cpu_now().saturating_sub(c0);
+        if used <= limit { return Ok(None); }
+        best = Some(best.map_or(used, |b| b.min(used)));
+        if used > 4 * limit { break; }
+        heartbeat();
+    }
+    Ok(Some(format!("slow: used {:.2} s of CPU time, the budget of a {}-byte input is {:.2} s (1 s + 10 us per byte)", best.unwrap_or_default().as_secs_f64(), bytes.len(), limit.as_secs_f64())))
+}
 
 fn seeds() -> Vec<(String, Vec<u8>)> {
     let mut v = vec![];
@@ -51,7 +179,7 @@ fn consume(kind: &str, bytes: &[u8]) {
             let mut d = Document::with_version("1.5");
             let sid = d.add_object(Stream::new(lopdf::Dictionary::new(), bytes.to_vec()));
             font.set("ToUnicode", Object::Reference(sid));
-            if let Ok(enc) = font.get_font_encoding(&d) { for code in [&b"\x00\x03"[..], b"\x00\x10\x00\x22", b"\x00\x31\xff", b"\xff\xff\xff\xff\x01"] { let _ = enc.bytes_to_string(code); } }
+            if let Ok(enc) = font.get_font_encoding(&d) { for code in [&b"\x00\x03"[..], b"\x00\x10\x00\x22", b"\x00\x31\xff", b"\xff\xff\xff\xff\x01", b"\x00\x00\x00\x00\x00\x00\x00\x01\x80\x00\x00\x00", b"\xff\xff\xfe\xff\xff\xff", b"\x00\x01\x80\xfe\xff"] { let _ = enc.bytes_to_string(code); let _ = Document::decode_text(&enc, code); } }
         }
         "text" => { let _ = lopdf::decode_text_string(&Object::string_literal(bytes.to_vec())); }
         "filter" => {
@@ -66,6 +194,17 @@ fn consume(kind: &str, bytes: &[u8]) {
             dict.set("DecodeParms", p);
             let s = Stream::new(dict, bytes[4..].to_vec());
             let _ = s.decompressed_content();
+        }
+        "predictor" => {
+            // bytes = "predictor columns colors bpc\n" then Flate data
+            let Some(nl) = bytes.iter().position(|c| *c == b'\n') else { return; };
+            let nums: Vec<i64> = String::from_utf8_lossy(&bytes[..nl]).split(' ').filter_map(|t| t.parse().ok()).collect();
+            if nums.len() != 4 { return; }
+            let mut p = lopdf::Dictionary::new();
+            p.set("Predictor", nums[0]); p.set("Columns", nums[1]); p.set("Colors", nums[2]); p.set("BitsPerComponent", nums[3]);
+            let mut dict = lopdf::Dictionary::new();
+            dict.set("Filter", name(b"FlateDecode")); dict.set("DecodeParms", p);
+            let _ = Stream::new(dict, bytes[nl + 1..].to_vec()).decompressed_content();
         }
         _ => {}
     }
@@ -82,6 +221,19 @@ fn mutations(kind: &str, seed: &[u8], thorough: bool) -> Vec<Vec<u8>> {
     let mut i = 0;
     while i < seed.len() {
         if seed[i].is_ascii_digit() { let mut j = i; while j < seed.len() && seed[j].is_ascii_digit() { j += 1; } for e in EXTREMES { let mut m = seed[..i].to_vec(); m.extend_from_slice(e.as_bytes()); m.extend_from_slice(&seed[j..]); out.push(m); } i = j; } else { i += 1; }
+    }
+    // second-order numeric extremes in every digit run (documents: d = 1, thorough d in 1, 2, 3, 4, 8; other entry points: every d)
+    let fam: Vec<String> = boundary_family(if kind != "doc" { D_ALL } else if thorough { D_FEW } else { D_ONE });
+    for (i, j) in digit_runs(seed) { for e in &fam { out.push(splice(seed, i, j, e.as_bytes())); } }
+    // numeric extremes of hex-coded numbers: every <hex string> replaced by 00.., 7F FF.., 80 00.., FF.. of 1..=5 bytes
+    if kind == "cmap" {
+        let mut i = 0;
+        while i < seed.len() {
+            if seed[i] == b'<' { if let Some(l) = seed[i + 1..].iter().position(|c| !c.is_ascii_hexdigit()) { let j = i + 1 + l; if l > 0 && seed.get(j) == Some(&b'>') {
+                for n in 1..=5usize { for (first, rest) in [("00", "00"), ("7F", "FF"), ("80", "00"), ("FF", "FF")] { let h = format!("{}{}", first, rest.repeat(n - 1)); out.push(splice(seed, i + 1, j, h.as_bytes())); } }
+                i = j; continue; } } }
+            i += 1;
+        }
     }
     if kind == "doc" {
         // W widths and Index/Size extremes spelled out, Prev / Length cycles
@@ -178,8 +330,17 @@ fn all_jobs(thorough: bool) -> Vec<(String, Vec<u8>)> {
     let payloads: Vec<Vec<u8>> = vec![b"x\x9c\x03\x00\x00\x00\x00\x01".to_vec(), b"\x02abc\x01def\x04xyz\x03pqr\x00".to_vec(), b"s8W-!s8W-\"zz!!~>".to_vec(),
         zl(b"\x00a\x01b\x02"), zl(b"\x02ab\x04cd\x03"), zl(b"\x01abc\x03de\x04fgh\x02")];
     for a in 0..3u8 { for b in 0..54u8 { for c in (0..81u8).step_by(if thorough { 1 } else { 5 }) { for e in 0..2u8 { for payload in &payloads { let mut m = vec![a, b, c, e]; m.extend_from_slice(payload); jobs.push(("filter".into(), m)); } } } } }
-    jobs
+    for m in inline_image_jobs() { jobs.push(("content".into(), m)); }
+    for m in cmap_range_jobs() { jobs.push(("cmap".into(), m)); }
+    for m in predictor_jobs() { jobs.push(("predictor".into(), m)); }
+    // deal the jobs round-robin over the 16 workers' (contiguous) shares, so that one expensive family is not one worker's
+    let n = jobs.len();
+    let mut slots: Vec<Option<(String, Vec<u8>)>> = jobs.into_iter().map(Some).collect();
+    let mut dealt = Vec::with_capacity(n);
+    for r in 0..WORKERS { for i in (r..n).step_by(WORKERS) { dealt.push(slots[i].take().unwrap()); } }
+    dealt
 }
+const WORKERS: usize = 16;
 
 /// worker: runs jobs[from..to] announcing each index first
 pub fn worker(from: usize, to: usize, thorough: bool) {
@@ -189,8 +350,12 @@ pub fn worker(from: usize, to: usize, thorough: bool) {
         for i in from..to.min(jobs.len()) {
             { let mut o = out.lock(); let _ = writeln!(o, "@{}", i); let _ = o.flush(); }
             let (k, b) = &jobs[i];
-            if let Err(p) = guarded(|| consume(k, b)) {
-                let mut o = out.lock(); let _ = writeln!(o, "!{} {}", i, p.replace('\n', " ")); let _ = o.flush();
+            // "~" lines only tell the watchdog that the worker is alive (a second measurement is about to start)
+            let heartbeat = || { let mut o = out.lock(); let _ = writeln!(o, "~{}", i); let _ = o.flush(); };
+            match run_timed(k, b, &heartbeat) {
+                Err(p) => { let mut o = out.lock(); let _ = writeln!(o, "!{} panic: {}", i, p.replace('\n', " ")); let _ = o.flush(); }
+                Ok(Some(slow)) => { let mut o = out.lock(); let _ = writeln!(o, "!{} {}", i, slow); let _ = o.flush(); }
+                Ok(None) => {}
             }
         }
         let mut o = out.lock(); let _ = writeln!(o, "@done"); let _ = o.flush();
@@ -209,15 +374,15 @@ fn spawn(from: usize, to: usize, thorough: bool) -> std::process::Child {
 pub fn run_depth(thorough: bool) -> Report {
     std::env::set_var("C04_ONLY", "depth");
     let mut rep = run(thorough);
-    rep.bound = format!("nesting only, on this build of the harness (profile: {}): depths 10..120 in steps of 10, 31-33, 63-65, 99, 101, 150, 300, 1000, 3000 (thorough 20000, 100000) of [ ], << >>, ( ), <</A >>, [<</A >>], <</A[ ]>> as a content stream operand and as the only object of a document; each input in a worker thread with a 2 MiB stack (the default of spawned threads and of rayon workers), 4 GB address space, 10 s watchdog", if cfg!(debug_assertions) && cfg!(not(lopdf_verif_opt)) { "as built" } else { "as built" });
+    rep.bound = format!("nesting only, on this build of the harness (profile: {}): depths 10..120 in steps of 10, 31-33, 63-65, 99, 101, 150, 300, 1000, 3000 (thorough 20000, 100000) of [ ], << >>, ( ), <</A >>, [<</A >>], <</A[ ]>> as a content stream operand and as the only object of a document; each input in a worker thread with a 2 MiB stack (the default of spawned threads and of rayon workers), 4 GB address space, 10 s watchdog, CPU-time budget of 1 s + 10 us per input byte", if cfg!(debug_assertions) && cfg!(not(lopdf_verif_opt)) { "as built" } else { "as built" });
     rep
 }
 
 pub fn run(thorough: bool) -> Report {
     let jobs = all_jobs(thorough);
-    let mut rep = Report::new("seeds: 4 small documents (table / xref stream / Flate+predictor xref stream with object stream / incremental), a content stream, a ToUnicode CMap, a text string; inputs: every single-byte substitution (quick: 25 lexically significant values, thorough: all 256) at every offset, every truncation, splices, 17 numeric extremes in every digit run, W/Index/Prev/Length/Kids constructions, 76 files whose stream /Length is a compressed object resolving after the parallel phase (values 0..700 in steps of 10 around the distance to the end of the file, and 2^32, 2^63-1), nesting depth up to 3000 (thorough 100000) for [ << ( and dictionaries, all filter-parameter selector combinations over six payloads (empty deflate, raw rows, ASCII85, and three zlib streams ending in a truncated predictor row); each in a worker with a 2 MiB stack, 4 GB address space and a 10 s watchdog", false);
+    let mut rep = Report::new("seeds: 4 small documents (table / xref stream / Flate+predictor xref stream with object stream / incremental), a content stream, a ToUnicode CMap, a text string; inputs: every single-byte substitution (quick: 25 lexically significant values, thorough: all 256) at every offset, every truncation, splices, 17 numeric extremes in every digit run, and in every digit run the second-order extremes floor((L-k)/d) and successor for L = 2^31-1, 2^32-1, 2^63-1, 2^64-1, k = 0..=8 (a value above 2^63-1 written as the negative integer that casts to it: -1..-9), d = 1 for documents (39 values; thorough d in 1,2,3,4,8: 85 values), d in 1..=8,12,16,24,32,48,64 for the content stream and the CMap (150 values), every <hex string> of the CMap replaced by 00.., 7FFF.., 8000.., FF.. of 1 to 5 bytes, W/Index/Prev/Length/Kids constructions, 76 files whose stream /Length is a compressed object resolving after the parallel phase (values 0..700 in steps of 10 around the distance to the end of the file, and 2^32, 2^63-1), nesting depth up to 3000 (thorough 100000) for [ << ( and dictionaries, all filter-parameter selector combinations over six payloads (empty deflate, raw rows, ASCII85, and three zlib streams ending in a truncated predictor row); inline images BI..ID..EI (data size ceil(W*BPC*components/8)*H): colour space G, DeviceGray, RGB, DeviceRGB, CMYK, DeviceCMYK (abbreviated keys for the short names, full keys for the long ones) x BPC 1,2,4,8,16, each with the 150 second-order extremes at W, at H and at BPC, and for the short spellings the 39 x 39 pairs (d = 1) at W and H together (36345 content streams); ToUnicode CMaps written from the grammar: code length 1..=4 x bfrange lo, hi each over 0, 1, middle, max-1, max of that length (25 pairs: empty, single, reversed, half and full ranges up to 2^32 codes) x destination <0041>, <00660069>, [<0041>], [<0041> <0042>], [<0041> <00420043> <0044>], [] x the line once or three times x alone or after bfchar and bfrange definitions (2400 CMaps; each then decodes 7 code strings of 1..4-byte codes); Flate + predictor 2 and 12 with Colors 1,3,4 x BitsPerComponent 1,2,4,8,16 x the 150 extremes as Columns, and the 39 extremes (d = 1) as Colors, as BitsPerComponent, and as Columns and Colors together (7698); each input in a worker with a 2 MiB stack, 4 GB address space, a 10 s no-progress watchdog, and a CPU-time budget of 1 s + 10 us per input byte (process CPU time over all threads; measured a second time, smaller figure kept, unless exceeded more than 4 times)", false);
     let n = jobs.len();
-    let workers = 16usize;
+    let workers = WORKERS;
     let chunk = (n + workers - 1) / workers;
     let results: Vec<Vec<(usize, String)>> = std::thread::scope(|sc| {
         let hs: Vec<_> = (0..workers).map(|w| sc.spawn(move || {
@@ -229,12 +394,14 @@ pub fn run(thorough: bool) -> Report {
                 let (tx, rx) = std::sync::mpsc::channel::<String>();
                 std::thread::spawn(move || { for l in BufReader::new(stdout).lines().flatten() { if tx.send(l).is_err() { break; } } });
                 let mut last: Option<usize> = None; let mut done = false; let mut hung = false;
-                let mut note = |l: &str, fails: &mut Vec<(usize, String)>| { if let Some(rest) = l.strip_prefix('!') { let mut it = rest.splitn(2, ' '); if let Some(i) = it.next().and_then(|x| x.parse().ok()) { fails.push((i, format!("panic: {}", it.next().unwrap_or("")))); } } };
+                let mut note = |l: &str, fails: &mut Vec<(usize, String)>| { if let Some(rest) = l.strip_prefix('!') { let mut it = rest.splitn(2, ' '); if let Some(i) = it.next().and_then(|x| x.parse().ok()) { fails.push((i, it.next().unwrap_or("").to_string())); } } };
+                // until its first announcement the worker is only building its own copy of the job list (no library call yet):
+                // that is given 300 s, every input after that 10 s without a sign of life
                 let mut t0 = Instant::now();
                 loop {
                     match rx.recv_timeout(Duration::from_millis(500)) {
                         Ok(l) => { t0 = Instant::now(); note(&l, &mut fails); if l == "@done" { done = true; } else if let Some(i) = l.strip_prefix('@').and_then(|x| x.parse().ok()) { last = Some(i); } }
-                        Err(std::sync::mpsc::RecvTimeoutError::Timeout) => { if t0.elapsed() > Duration::from_secs(10) { hung = true; let _ = child.kill(); break; } if let Ok(Some(_)) = child.try_wait() { while let Ok(l) = rx.try_recv() { note(&l, &mut fails); if l == "@done" { done = true; } else if let Some(i) = l.strip_prefix('@').and_then(|x| x.parse().ok()) { last = Some(i); } } break; } }
+                        Err(std::sync::mpsc::RecvTimeoutError::Timeout) => { if t0.elapsed() > Duration::from_secs(if last.is_none() { 300 } else { 10 }) { hung = true; let _ = child.kill(); break; } if let Ok(Some(_)) = child.try_wait() { while let Ok(l) = rx.try_recv() { note(&l, &mut fails); if l == "@done" { done = true; } else if let Some(i) = l.strip_prefix('@').and_then(|x| x.parse().ok()) { last = Some(i); } } break; } }
                         Err(_) => break,
                     }
                 }
@@ -252,10 +419,16 @@ pub fn run(thorough: bool) -> Report {
     rep.evaluations = n as u64; rep.nontrivial = n as u64;
     for (i, how) in results.into_iter().flatten() {
         let (k, b) = &jobs[i];
-        let ob = if how.contains("hang") { "no-hang" } else if how.starts_with("panic") { "no-panic" } else { "no-abort" };
-        let d = format!("entry point {:?}: {} on a {}-byte input starting {:?}", k, how, b.len(), String::from_utf8_lossy(&b[..b.len().min(60)]));
+        let ob = if how.starts_with("panic") { "no-panic" } else if how.starts_with("slow") { "time-bound" } else if how.contains("hang") { "no-hang" } else { "no-abort" };
+        // a CMap is told apart by its mapping sections, not by its prologue
+        let sections = if k == "cmap" { find(b, b"endcodespacerange").map(|p| &b[(p + 18).min(b.len())..]).map(|t| &t[..find(t, b"endcmap").unwrap_or(t.len()).min(240)]) } else { None };
+        let d = match sections {
+            Some(t) if !t.is_empty() => format!("entry point {:?}: {} on a {}-byte input whose mapping sections are {:?}", k, how, b.len(), String::from_utf8_lossy(t)),
+            _ => format!("entry point {:?}: {} on a {}-byte input starting {:?}", k, how, b.len(), String::from_utf8_lossy(&b[..b.len().min(80)])),
+        };
         rep.fail(&format!("{}-{}", ob, k), d.clone(), json!({"kind": k, "bytes": hex(&b[..b.len().min(200_000)]), "len": b.len()}), d);
     }
+    { let mut per: std::collections::BTreeMap<&str, usize> = Default::default(); for (k, _) in &jobs { *per.entry(k.as_str()).or_default() += 1; } rep.sample(format!("inputs per entry point: {:?}", per)); }
     rep.sample(format!("{} hostile inputs, e.g. {:?}", n, String::from_utf8_lossy(&jobs[n / 3].1[..jobs[n / 3].1.len().min(50)])));
     rep
 }
@@ -266,10 +439,15 @@ pub fn replay(v: &Value) -> Result<(), String> {
     let path = std::env::temp_dir().join(format!("c04_replay_{}.bin", std::process::id()));
     std::fs::write(&path, &bytes).map_err(|e| e.to_string())?;
     let exe = std::env::current_exe().unwrap();
-    let mut child = Command::new("sh").arg("-c").arg(format!("ulimit -v 4000000; exec {} c04-one {} {}", exe.display(), kind, path.display())).stdout(Stdio::null()).stderr(Stdio::null()).spawn().map_err(|e| e.to_string())?;
+    let mut child = Command::new("sh").arg("-c").arg(format!("ulimit -v 4000000; exec {} c04-one {} {}", exe.display(), kind, path.display())).stdout(Stdio::piped()).stderr(Stdio::null()).spawn().map_err(|e| e.to_string())?;
     let t0 = Instant::now();
     loop {
-        if let Ok(Some(st)) = child.try_wait() { let _ = std::fs::remove_file(&path); return if st.success() { Ok(()) } else { Err(format!("worker died: {:?}", st)) }; }
+        if let Ok(Some(st)) = child.try_wait() {
+            let _ = std::fs::remove_file(&path);
+            // the child says in one short line why it exits with 101 (panic) or 102 (over the time budget)
+            let mut said = String::new(); if let Some(mut o) = child.stdout.take() { use std::io::Read as _; let _ = o.read_to_string(&mut said); }
+            return if st.success() { Ok(()) } else if said.trim().is_empty() { Err(format!("worker died: {:?}", st)) } else { Err(said.trim().to_string()) };
+        }
         if t0.elapsed() > Duration::from_secs(10) { let _ = child.kill(); let _ = std::fs::remove_file(&path); return Err("no result within 10 s (hang)".into()); }
         std::thread::sleep(Duration::from_millis(50));
     }
@@ -278,6 +456,11 @@ pub fn replay(v: &Value) -> Result<(), String> {
 pub fn one(kind: &str, path: &str) {
     let bytes = std::fs::read(path).unwrap_or_default();
     let k = kind.to_string();
-    let h = std::thread::Builder::new().stack_size(2 * 1024 * 1024).spawn(move || consume(&k, &bytes)).unwrap();
-    if h.join().is_err() { std::process::exit(101); }
+    let h = std::thread::Builder::new().stack_size(2 * 1024 * 1024).spawn(move || run_timed(&k, &bytes, &|| {})).unwrap();
+    match h.join() {
+        Ok(Ok(None)) => {}
+        Ok(Ok(Some(slow))) => { println!("{}", slow); std::process::exit(102); }
+        Ok(Err(p)) => { println!("panic: {}", p.replace('\n', " ")); std::process::exit(101); }
+        Err(_) => std::process::exit(101),
+    }
 }
